@@ -116,6 +116,27 @@ func (g *gen) sweep() []string {
 			}
 		}
 	}
+	ops = append(ops, g.stallCase(0, 2, 10040, 60)...)
+	ops = append(ops, g.stallCase(1, 0, 10040, 60)...)
+	return ops
+}
+
+// a client stops reading while service `to` issues more than chSend holds
+// (9999 + the packet in the writer's hand) towards it, the response somewhere
+// behind the 10000th message: the session's writer blocks in conn.Write, chSend
+// fills up and the front's goroutine blocks in pushToSend (front-local issuer: in
+// the middle of the handler; back-end issuer: in the middle of its mailbox run).
+// A second client keeps reading and talks to service `to2` meanwhile (isolation;
+// its pushes towards the stalled client queue up behind the block).  Then the
+// client reads again and everything must arrive, in issue order.
+func (g *gen) stallCase(to, to2, n, tail int) []string {
+	g.h.Count("case:stalled-client")
+	g.h.Count(fmt.Sprintf("stalled-client:issuer=%d", to))
+	g.nreq = map[int]int{}
+	ops := []string{"reset n=2 slow=1", "stall c=0"}
+	ops = append(ops, fmt.Sprintf("req c=0 to=%d r=%d/P0x%d,r,P0x%d,p1", to, g.id(0), n, tail))
+	ops = append(ops, fmt.Sprintf("req c=1 to=%d r=%d/p1,P0x30,r,p1,p0", to2, g.id(1)))
+	ops = append(ops, "go ms=5", "resume c=0", "go ms=5", "settle")
 	return ops
 }
 
@@ -125,6 +146,8 @@ func (g *gen) genCase() []string {
 	x := r.Intn(100)
 	thorough := g.h.Thorough()
 	switch {
+	case x < 2:
+		return g.stallCase(r.Intn(len(svcNames)), r.Intn(len(svcNames)), 10050+r.Intn(1500), r.Intn(200))
 	case x < 6:
 		return g.burstCase(thorough)
 	case x < 12:
@@ -209,7 +232,7 @@ func (g *gen) burstCase(thorough bool) []string {
 	g.h.Count("case:burst")
 	nc := 1 + r.Intn(3)
 	size := 200 + r.Intn(800)
-	if thorough && g.big < 6 && r.Intn(3) == 0 {
+	if thorough && g.big < 40 && r.Intn(3) == 0 {
 		size = 2500 + r.Intn(7500)
 		g.big++
 		g.h.Count("case:burst-10k")
